@@ -3,6 +3,7 @@ CONSTANTS
  BugDupChecks = FALSE  BugIterEmpty = FALSE  BugAppendTotal = FALSE
  NSlots = 3  MaxStreams = 70  MaxRecs = 4700
  USizes <- TinyU  VSizes <- TinyV  Pads <- TinyP  FlagSet <- TinyF
+ CommonU <- SmallU  CommonV <- SmallV
  Volume = TRUE
  MinSteps = 7  MaxSteps = 7
 CONSTRAINT Emit
